@@ -182,6 +182,15 @@ def as_term(x):
     return t
 
 
+def _is_nan(x):
+    try:
+        return not isinstance(x, (SymReal, SymBool)) and isinstance(x, (float,)) and x != x or (
+            type(x).__module__ == "numpy" and x != x
+        )
+    except Exception:  # noqa: BLE001
+        return False
+
+
 def fnum(x):
     if isinstance(x, Fraction):
         return float(x)
@@ -335,6 +344,9 @@ def run_scenario(sc, do_validate=True):
             res["obligations"] += 1
             res["labels"].add(ob.label)
             try:
+                if ob.kind == "eq" and (_is_nan(ob.impl) or _is_nan(ob.oracle)):
+                    ob.kind = "true"
+                    ob.cond = _is_nan(ob.impl) and _is_nan(ob.oracle)
                 if ob.kind == "eq":
                     it, ot = as_term(ob.impl), as_term(ob.oracle)
                     claim = it == ot
